@@ -164,7 +164,8 @@ def gen_case(rng):
         return {"cls": "addr", "lit": a, "mut": None}
     if k < .96:
         base = rng.choice(["f()void", "add(uint64,uint64)uint64", "g((uint64,bool),string[])byte[]", "x", "a b", "a\tb", "q//r",
-                           "s;t", "u\\", "v'w", "é()void", "m\\\\", "base64(x)", "0x00"])
+                           "s;t", "u\\", "v'w", "é()void", "m\\\\", "base64(x)", "0x00",
+                           "pad(uint64)void ", "tab()void\t", " lead()void", "  two(uint8)void  "])
         m = rng.random()
         if m < .12:
             base = base + rng.choice(['"', '"x', "\n", "\r", "\nerr", '" // c'])
